@@ -75,10 +75,14 @@ def rst(
     if nl or ("\n" in answer and nl is None):
         answer += "\n" + " " * indent
 
-    # If the text ends in a double-quote, append a period.
+    # A triple double-quote inside the text would terminate the docstring
+    # this output is placed in.
+    answer = answer.replace('"""', "'''")
+
+    # If the text ends in a double-quote or a backslash, append a period.
     # This ensures that we do not get a parse error when this output is
     # followed by triple-quotes.
-    if answer.endswith('"'):
+    if answer.endswith('"') or answer.endswith("\\"):
         answer += "."
 
     # Done; return the answer.
